@@ -272,7 +272,7 @@ type child struct {
 	manual        bool // the scenario configured the error channel itself (`chan`): only `recv` ops read it
 	parkStarted   int  // consumers started by `park`
 	parkCollected int  // of these: reports already printed
-	parkedCh      chan *modules.ModuleError
+	parkedCh      chan parkedRep
 	wedged        bool // a wait has expired: the verdict of this case is settled, later waits are short
 }
 
@@ -290,7 +290,7 @@ const (
 func childMain() {
 	c := &child{resp: bufio.NewWriter(os.NewFile(3, "resp")), items: map[string]*item{}, subject: "A",
 		reports: make(chan *modules.ModuleError, 1<<14), scratch: os.Getenv("HX_C06_DIR"),
-		parkedCh: make(chan *modules.ModuleError, 256)}
+		parkedCh: make(chan parkedRep, 256)}
 	modules.SetStdErrReporting(false)
 	modules.SetErrorReportingChannel(c.reports)
 	modules.VerifC06SetStopTimeout(stopTimeout)
@@ -467,7 +467,17 @@ func parkedBlocked() int {
 	return n
 }
 
-func parkRecv(from <-chan *modules.ModuleError, to chan<- *modules.ModuleError) { to <- <-from }
+// parkRecv: a consumer blocked in a receive. Go serves blocked receivers first come, first served, so the
+// consumers get the reports in the order in which they were parked; `idx` keeps that order for printing.
+type parkedRep struct {
+	idx int
+	me  *modules.ModuleError
+}
+
+func parkRecv(idx int, from <-chan *modules.ModuleError, to chan<- parkedRep) {
+	me := <-from
+	to <- parkedRep{idx, me}
+}
 
 func (c *child) repStr(me *modules.ModuleError) string {
 	s := repStr(me)
@@ -510,9 +520,14 @@ func (c *child) recv(k int) string {
 	if c.parkStarted > 0 {
 		// a parked consumer that is no longer blocked in its receive has got a report: wait until it has handed it on
 		c.waitUntil(settleTimeout, func() bool { return len(c.parkedCh) == c.parkStarted-c.parkCollected-parkedBlocked() })
+		var got []parkedRep
 		for len(c.parkedCh) > 0 {
-			rs = append(rs, c.repStr(<-c.parkedCh))
+			got = append(got, <-c.parkedCh)
 			c.parkCollected++
+		}
+		sort.Slice(got, func(i, j int) bool { return got[i].idx < got[j].idx })
+		for _, g := range got {
+			rs = append(rs, c.repStr(g.me))
 		}
 	}
 	for ; k > 0; k-- {
@@ -805,7 +820,20 @@ func (c *child) do(line string) string {
 				return "shutdown-with-held-work"
 			}
 		}
-		err := modules.Shutdown()
+		// Shutdown waits at most stopTimeout per module for work that does not finish; it has no other reason to block
+		var err error
+		sdDone := make(chan error, 1)
+		go func() { sdDone <- modules.Shutdown() }()
+		limit := time.Duration(len(c.mods)+2) * (stopTimeout + 3*time.Second)
+		if c.wedged {
+			limit = stopTimeout + 5*time.Second
+		}
+		select {
+		case err = <-sdDone:
+		case <-time.After(limit):
+			c.down = true
+			return "shutdown noreturn"
+		}
 		c.down = true
 		slow := "no"
 		if time.Since(t0) > slowStop {
@@ -870,9 +898,10 @@ func (c *child) do(line string) string {
 		if len(f) != 1 || !c.manual || c.reports == nil || c.chLen() != 0 {
 			return "bad-op"
 		}
+		// every consumer parked earlier is either still blocked or has received its report
+		want := parkedBlocked() + 1
 		c.parkStarted++
-		go parkRecv(c.reports, c.parkedCh)
-		want := c.parkStarted - c.parkCollected - len(c.parkedCh)
+		go parkRecv(c.parkStarted, c.reports, c.parkedCh)
 		if !c.waitUntil(settleTimeout, func() bool { return parkedBlocked() >= want }) {
 			return "park timeout"
 		}
